@@ -43,13 +43,14 @@ META = {
         "earlier updates of that producer and all updates whose calls had returned before it started are already "
         "delivered; per-producer program order and call_end(A)<call_start(B)=>A before B; token(i+1)==token returned "
         "by call i; count<=limit; size<=limit unless single update; every sync caller returns (deadlock/time-cap = "
-        "violation); after the final flush nothing is missing. Non-trivial = >=2 API calls and (an update went through "
+        "violation), also when the backend call fails (then with the failure, and no call follows the failed one); after "
+        "the final flush nothing is missing. Non-trivial = >=2 API calls and (an update went through "
         "the overflow path (its call exceeded the batch's remaining size) or arrived during an open window); distinct = "
         "(config, scripts, decision-trace hash)."
     ),
     "assumptions": [
         "update size is measured as the SDK documents it: len(json.dumps(update.to_dict()))",
-        "the service client is a conforming recording client (returns a fresh token per call, never fails) - failures are C06's subject",
+        "the recording client returns a fresh token per call; in a quarter of the generated scenarios one call (and every later one) raises: then every synchronous caller must be released with the failure (never with success for an undelivered update) and nobody may block",
         "operation ids are unique per update and carry no parent (orphan rejection is C10's subject)",
     ],
     "budget": {
@@ -90,6 +91,11 @@ def run_scenario(scn: dict, chooser, *, line_mode=False):
             rec = {"token": checkpoint_token, "ids": [u.operation_id for u in updates], "sizes": [_size(u) for u in updates], "start": tick()}
             api_calls.append(rec)
             sched.yield_point("api")
+            if scn.get("fail_call") is not None and len(api_calls) - 1 >= scn["fail_call"]:
+                rec["failed"] = True
+                if len(api_calls) - 1 > scn["fail_call"]:
+                    viol.append(("api_call_after_failure", "stream", f"call #{len(api_calls) - 1} issued after call #{scn['fail_call']} failed"))
+                raise RuntimeError("backend says no")
             k = len(api_calls) - 1
             for pos, u in enumerate(updates):
                 if u.operation_id in delivered:
@@ -136,8 +142,12 @@ def run_scenario(scn: dict, chooser, *, line_mode=False):
                     pass
             try:
                 state.create_checkpoint(upd, is_sync=sync)
-            except BackgroundThreadError as e:  # never expected here: the client does not fail
-                viol.append(("unexpected_failure", "create_checkpoint", repr(e)))
+            except BackgroundThreadError as e:
+                if scn.get("fail_call") is None:  # never expected: the client does not fail
+                    viol.append(("unexpected_failure", "create_checkpoint", repr(e)))
+                if uid is not None:
+                    calls[uid]["end"] = tick()
+                    calls[uid]["failed"] = True
                 return
             end = tick()
             if uid is not None:
@@ -152,10 +162,16 @@ def run_scenario(scn: dict, chooser, *, line_mode=False):
         sched.block(lambda: all(t.state == "done" for t in ts[1:]), None, "producers")
         # final flush: a sync empty checkpoint issued after every producer has finished
         start = tick()
-        state.create_checkpoint(None, is_sync=True)
+        try:
+            state.create_checkpoint(None, is_sync=True)
+            flushed = True
+        except BackgroundThreadError:
+            flushed = False
+            if scn.get("fail_call") is None:
+                viol.append(("unexpected_failure", "final-flush", "BackgroundThreadError without a failing client"))
         have = {i for c in api_calls if "end" in c for i in c["ids"]}
         for oid in calls:
-            if oid not in have:
+            if flushed and oid not in have:
                 viol.append(("lost_after_flush", "final", f"update {oid} never delivered although a later sync checkpoint returned; api={_brief(api_calls)}"))
         state.stop_checkpointing()
         sched.block(lambda: ts[0].state == "done", 5.0, "batcher-exit")
@@ -267,7 +283,8 @@ def scenarios(draw):
         ch = {"mode": "pct", "seed": sd, "depth": draw(st.integers(1, 3)), "horizon": draw(st.sampled_from([100, 400, 1500]))}
     else:
         ch = {"mode": "seq", "preempt": draw(st.lists(st.tuples(st.integers(1, 400), st.integers(0, 4)).map(list), max_size=4))}
-    return {"scn": {"config": cfg, "scripts": scripts}, "chooser": ch, "line": draw(st.sampled_from([False, False, True]))}
+    fail_call = draw(st.sampled_from([None, None, None, 0, 1, 2]))
+    return {"scn": {"config": cfg, "scripts": scripts, "fail_call": fail_call}, "chooser": ch, "line": draw(st.sampled_from([False, False, True]))}
 
 
 BOUNDED_CONFIGS = [
@@ -283,7 +300,7 @@ BOUNDED_CONFIGS = [
 
 
 def _line_on():
-    D.enable_line_mode([S])
+    D.enable_line_mode([S, T])
 
 
 def _report(ctx, scn, info, vs, sched_desc, sample_ok=True):
@@ -292,7 +309,8 @@ def _report(ctx, scn, info, vs, sched_desc, sample_ok=True):
     ctx.case(
         nontrivial_key=key,
         classes=[c for c, on in (("api>=2", info["multi"]), ("batched", info["batched"]), ("overflow-path", info["over"]),
-                                 ("oversize-update", info["oversize"]), ("default-config", scn["config"] is None)) if on],
+                                 ("oversize-update", info["oversize"]), ("default-config", scn["config"] is None),
+                                 ("failing-client", scn.get("fail_call") is not None)) if on],
         sample={"scenario": scn, "schedule": sched_desc, "api_calls": info["api_calls"], "steps": info["steps"]} if (nt and sample_ok) else None,
     )
     if info.get("inconclusive"):
